@@ -103,6 +103,10 @@ pub struct ThreadSpec {
     pub scripts: Vec<Vec<TOp>>,
     pub sched: SchedKind,
     pub seed: u64,
+    /// scheduling points also at every FFI call into aws-lc made by an operation (interleavings
+    /// inside operations), not only between operations
+    #[serde(default)]
+    pub fine: bool,
 }
 
 #[derive(Clone)]
@@ -390,6 +394,26 @@ fn run_op(bk: Bk, keys: &mut Keys, shared: &Shared, st: &mut ThreadState, mail: 
 struct Baton {
     turn: Option<usize>,
     done: Vec<bool>,
+    /// set by the watchdog when a thread that holds the baton blocks on another, parked thread (a
+    /// lock held across an FFI call): every thread then runs freely to the end of the episode
+    free: bool,
+}
+
+struct BatonYielder(Arc<(Mutex<Baton>, Condvar)>);
+
+impl crate::ffiyield::Yielder for BatonYielder {
+    fn yield_now(&self, t: usize) {
+        let (m, cv) = &*self.0;
+        let mut g = m.lock().unwrap_or_else(|e| e.into_inner());
+        if g.free {
+            return;
+        }
+        g.turn = None;
+        cv.notify_all();
+        while g.turn != Some(t) && !g.free {
+            g = cv.wait(g).unwrap_or_else(|e| e.into_inner());
+        }
+    }
 }
 
 fn fresh_keys(w: &mut World, spec: &ThreadSpec, bk: Bk) -> Option<Keys> {
@@ -437,16 +461,20 @@ pub fn run_threads(w: &mut World, spec: &ThreadSpec) {
         return;
     };
     let aad: &[u8] = if bk.has_aad() { b"c17" } else { b"" };
+    // the shared tokens and the "before" snapshot are made with another copy of the same keys: the
+    // shared key objects themselves are untouched (never used, nothing cached) when the episode starts
+    let Some(prep_keys) = fresh_keys(w, spec, bk) else { return };
     rngsvc::begin(&RngSpec::Prng { seed: spec.seed ^ 0x5ead });
-    let tok_local = be.seal(Purp::Local, &shared_keys.local, &Claims::Raw(b"shared local".to_vec()), &Foot::Unit, aad, None, false);
-    let tok_public = be.seal(Purp::Public, &shared_keys.secret, &Claims::Raw(b"shared public".to_vec()), &Foot::Unit, aad, None, false);
+    let tok_local = be.seal(Purp::Local, &prep_keys.local, &Claims::Raw(b"shared local".to_vec()), &Foot::Unit, aad, None, false);
+    let tok_public = be.seal(Purp::Public, &prep_keys.secret, &Claims::Raw(b"shared public".to_vec()), &Foot::Unit, aad, None, false);
     rngsvc::end();
     let (Out::Ok(tok_local), Out::Ok(tok_public)) = (tok_local, tok_public) else {
         w.violate("C01", "seal-failed", bk, "seal", "", "could not prepare the shared tokens of a thread episode".into());
         return;
     };
     let shared = Arc::new(Shared { tok_local, tok_public });
-    let before: Vec<Out<Vec<u8>>> = Kind::ALL.iter().map(|k| be.key_raw(*k, shared_keys.get(*k))).collect();
+    let before: Vec<Out<Vec<u8>>> = Kind::ALL.iter().map(|k| be.key_raw(*k, prep_keys.get(*k))).collect();
+    drop(prep_keys);
 
     // ---- oracle 1: every script alone on fresh copies; oracle 2: without its failing operations
     let mut alone: Vec<Vec<Option<String>>> = Vec::new();
@@ -459,40 +487,50 @@ pub fn run_threads(w: &mut World, spec: &ThreadSpec) {
     }
 
     // ---- the interleaved episode
-    let baton = Arc::new((Mutex::new(Baton { turn: None, done: vec![false; n] }), Condvar::new()));
+    let baton = Arc::new((Mutex::new(Baton { turn: None, done: spec.scripts.iter().map(|s| s.is_empty()).collect(), free: false }), Condvar::new()));
+    let fine = spec.fine && crate::ffiyield::FFI_YIELD_POINTS > 0;
+    let yields_total = Arc::new(std::sync::atomic::AtomicU64::new(0));
     let mail = Arc::new(Mutex::new(vec![Vec::<KeyH>::new(); n]));
     let results: Arc<Mutex<Vec<Vec<String>>>> = Arc::new(Mutex::new(vec![Vec::new(); n]));
     let mut handles = Vec::new();
     for (t, script) in spec.scripts.iter().enumerate() {
         let (baton, mail, results, shared, script) = (baton.clone(), mail.clone(), results.clone(), shared.clone(), script.clone());
-        let mut keys = shared_keys.clone(); // Arc clones: the *same* key objects
+        let mut keys = Some(shared_keys.clone()); // Arc clones: the *same* key objects
         let seed = spec.seed;
+        let yields_total = yields_total.clone();
         handles.push(std::thread::spawn(move || {
             let mut st = ThreadState::default();
+            if fine {
+                crate::ffiyield::set_hook(Some((Arc::new(BatonYielder(baton.clone())), t)));
+                crate::ffiyield::take_yields();
+            }
             for (i, op) in script.iter().enumerate() {
                 {
                     let (m, cv) = &*baton;
-                    let mut g = m.lock().unwrap();
-                    while g.turn != Some(t) {
-                        g = cv.wait(g).unwrap();
+                    let mut g = m.lock().unwrap_or_else(|e| e.into_inner());
+                    while g.turn != Some(t) && !g.free {
+                        g = cv.wait(g).unwrap_or_else(|e| e.into_inner());
                     }
                 }
-                let r = run_op(bk, &mut keys, &shared, &mut st, &mail, t, i, op, seed, true);
+                let r = run_op(bk, keys.as_mut().unwrap(), &shared, &mut st, &mail, t, i, op, seed, true);
                 results.lock().unwrap()[t].push(r);
+                if i + 1 == script.len() {
+                    // this thread's key handles (Arc clones and private clones) are dropped here, on
+                    // the worker, still under the scheduler's control
+                    drop(keys.take());
+                }
                 let (m, cv) = &*baton;
-                let mut g = m.lock().unwrap();
-                g.turn = None;
+                let mut g = m.lock().unwrap_or_else(|e| e.into_inner());
+                if !g.free {
+                    g.turn = None;
+                }
                 if i + 1 == script.len() {
                     g.done[t] = true;
                 }
                 cv.notify_all();
             }
-            if script.is_empty() {
-                let (m, cv) = &*baton;
-                m.lock().unwrap().done[t] = true;
-                cv.notify_all();
-            }
-            // keys (Arc clones and any private clones) are dropped on this worker thread
+            crate::ffiyield::set_hook(None);
+            yields_total.fetch_add(crate::ffiyield::take_yields(), std::sync::atomic::Ordering::Relaxed);
         }));
     }
     // the scheduler
@@ -500,15 +538,18 @@ pub fn run_threads(w: &mut World, spec: &ThreadSpec) {
     let total_ops: usize = spec.scripts.iter().map(|s| s.len()).sum();
     let mut prio: Vec<u64> = (0..n).map(|_| 1000 + srng.below(1000)).collect();
     let change_points: Vec<usize> = match spec.sched {
-        SchedKind::Pct { depth } => (0..depth).map(|_| srng.usize_below(total_ops.max(1))).collect(),
+        SchedKind::Pct { depth } => (0..depth).map(|_| srng.usize_below((total_ops * if fine { 8 } else { 1 }).max(1))).collect(),
         _ => vec![],
     };
-    let mut remaining: Vec<usize> = spec.scripts.iter().map(|s| s.len()).collect();
     let mut trace = crate::prng::LogHash::default();
     let mut step = 0usize;
     let mut rr = 0usize;
+    let mut degraded = false;
     loop {
-        let runnable: Vec<usize> = (0..n).filter(|t| remaining[*t] > 0).collect();
+        let runnable: Vec<usize> = {
+            let g = baton.0.lock().unwrap_or_else(|e| e.into_inner());
+            (0..n).filter(|t| !g.done[*t]).collect()
+        };
         if runnable.is_empty() {
             break;
         }
@@ -529,14 +570,25 @@ pub fn run_threads(w: &mut World, spec: &ThreadSpec) {
         trace.update(&[pick as u8]);
         {
             let (m, cv) = &*baton;
-            let mut g = m.lock().unwrap();
+            let mut g = m.lock().unwrap_or_else(|e| e.into_inner());
             g.turn = Some(pick);
             cv.notify_all();
+            let t0 = std::time::Instant::now();
             while g.turn.is_some() {
-                g = cv.wait(g).unwrap();
+                let (g2, to) = cv.wait_timeout(g, std::time::Duration::from_secs(5)).unwrap_or_else(|e| e.into_inner());
+                g = g2;
+                if to.timed_out() && g.turn.is_some() && fine && t0.elapsed() > std::time::Duration::from_secs(60) {
+                    // the running thread is blocked on a parked one: let everybody run
+                    g.free = true;
+                    g.turn = None;
+                    degraded = true;
+                    cv.notify_all();
+                }
             }
         }
-        remaining[pick] -= 1;
+        if degraded {
+            break;
+        }
         step += 1;
     }
     let mut crashed = false;
@@ -558,6 +610,14 @@ pub fn run_threads(w: &mut World, spec: &ThreadSpec) {
     w.stats.bump(&format!("op:thread-episode:{}", bk.name()));
     w.stats.add(&format!("op:thread-ops:{}", bk.name()), total_ops as u64);
     w.stats.distinct.insert(format!("schedule|{}|{}|{:016x}", bk.name(), n, trace.0));
+    if fine {
+        w.stats.bump(&format!("op:thread-episode-fine:{}", bk.name()));
+        w.stats.add("sched:ffi-yield-points-passed", yields_total.load(std::sync::atomic::Ordering::Relaxed));
+        w.stats.add("sched:slices", step as u64);
+    }
+    if degraded {
+        w.stats.bump("sched:episode-degraded-to-free-running");
+    }
     w.log.update_str(&format!("threads {} n={} ops={} schedule={:016x}", bk.name(), n, total_ops, trace.0));
     for t in 0..n {
         for (i, op) in spec.scripts[t].iter().enumerate() {
